@@ -179,7 +179,7 @@ prop('C07',
      scenarios=lambda tier: [sc('fault')],
      diverge={'U': {'accept', 'ret', 'post', 'calls', 'oracle'}},
      nontrivial=lambda u: u.get('faults', '') != '',
-     rule='8 history kinds (first use, growth, refresh, stale, bad proof, fork, same-size fork, bad signature) x 16 interface-level fault sets (every single and pairs of WriteOps/GetLatest/Set/Close/signer failures) on the in-memory and the file-backed SQLite store, x 8-11 SQL-driver-level fault sets (begin, query, exec, commit, rollback and pairs) through a wrapping database/sql driver with the production pool size; each followed by fault-free reads (3 s deadline) and an honest continuation step; storage-call script, verdict, returned bytes and state compared with the model; non-trivial = a fault was injected',
+     rule='11 history kinds (first use, growth, refresh, stale, bad proof, fork, same-size fork, bad signature, and the size-0 placeholder branch: first use at 0, refresh at 0, proof at 0) x 23 interface-level fault sets (every single and pairs of WriteOps/GetLatest/Set/Close/signer failures, and X = the read inside the write handle returns damaged bytes without an error: cut short, other origin, broken signature, empty, garbage) on the in-memory and the file-backed SQLite store, x 8-11 SQL-driver-level fault sets (begin, query, exec, commit, rollback and pairs) through a wrapping database/sql driver with the production pool size; each followed by fault-free reads (3 s deadline) and an honest continuation step; storage-call script, verdict, returned bytes and state compared with the model; non-trivial = a fault was injected',
      assumptions=['injected driver failures are clean (a failed COMMIT rolls back, as go-sqlite3 does)', 'the deadline is a runtime observation'],
      exhaustive=True)
 
@@ -213,7 +213,7 @@ prop('C13',
      scenarios=lambda tier: [sc('feeder')],
      diverge={'FD': None},
      nontrivial_line=lambda k, line: k == 'FD',
-     rule='feeder.FeedOnce against a scripted witness (recording stub, and the real witness behind the real witnessAdapter) for all (witness size, log size) in -1..N x 0..N (N=6 quick, 12 thorough), honest and forked log, all patterns of up to 2 (quick) / 4 (thorough) transient failures over get-latest / fetch-proof / update, unverifiable checkpoints (other key, other origin), witness ahead, context end; the sequence of calls (arguments, order) and the result compared with the model given the answers actually received; monitors check each Update against the latest checkpoint reported in the same attempt',
+     rule='feeder.FeedOnce against a scripted witness (recording stub, and the real witness behind the real witnessAdapter) for all (witness size, log size) in -1..N x 0..N (N=6 quick, 12 thorough), honest and forked log, all patterns of up to 2 (quick) / 4 (thorough) transient failures over get-latest / fetch-proof / update, unverifiable checkpoints (other key, other origin), a witness that answers get-latest with bytes that are not this log\'s checkpoint (other key, other origin, cut short, garbage), witness ahead, context end; the sequence of calls (arguments, order) and the result compared with the model given the answers actually received; monitors check each Update against the latest checkpoint reported in the same attempt',
      assumptions=['backoff timing (cenkalti/backoff) is real time, not modelled: the model is a retry loop over the attempts that happened'],
      exhaustive=True)
 
@@ -247,7 +247,7 @@ prop('C16',
      scenarios=lambda tier: [sc('httpapi')] * (2 if tier == 'quick' else 8),
      diverge={'A': None, 'U': {'accept', 'post'}},
      nontrivial_line=lambda k, line: k == 'A',
-     rule='histories of accepted and refused updates over 1..4 logs (IDs from log.ID) on in-memory, SQLite :memory: and SQLite file stores; after steps, GET checkpoint through the registered gorilla/mux handlers (httptest server) and through the bundled client for every known ID and for unknown / odd IDs (upper case, truncated, extended, -, _, ., %2F, empty, .., 200 characters, %00, non-ASCII, spaces), GET logs decoded and sorted; compared with the model and the monitors 200 => that log holds exactly these bytes, else 404, client maps 404 to ErrNotExist')
+     rule='histories of accepted and refused updates over 1..4 logs (IDs from log.ID) on in-memory, SQLite :memory: and SQLite file stores; after steps, GET checkpoint through the registered gorilla/mux handlers (httptest server) and through the bundled client for every known ID and for unknown / odd IDs (upper case, truncated, extended, -, _, ., %2F, empty, .., 200 characters, %00, non-ASCII, spaces), GET logs decoded and sorted; a quarter of the probes run while the store fails Logs / ReadOps / GetLatest (an error status is the only truthful answer: never 404, never \'does not exist\', never a 200 list that is not the stored set); compared with the model and the monitors 200 => that log holds exactly these bytes, else 404, client maps 404 to ErrNotExist')
 
 prop('C18',
      modules=['WitnessVerif.Props.C18'],
